@@ -510,3 +510,26 @@ def check_shifts(prog, F, report):
             n += 1
             report(node, b != "unbounded" and 0 <= b < w, {"operand_width": w, "largest_shift": b, "expression": expr_str(node)[:60]})
     return n
+
+
+# ------------------------------------------------------------------ products computed in 32 bits and widened afterwards
+
+def check_widened_products(prog, F, report):
+    """`a * b` evaluated in int (32 bits) whose result is then converted to a 64-bit type: the multiplication overflows before the
+    widening can help (milliseconds * 1000 -> microseconds ...).  Constant products are fine."""
+    n = 0
+    for node in F.walk():
+        if node["k"] != "ImplicitCastExpr" or node.get("ck") != "IntegralCast":
+            continue
+        if _type_width(node.get("ct") or node.get("t")) != 64:
+            continue
+        sub = node["c"][0]
+        while sub["k"] == "ParenExpr":
+            sub = sub["c"][0]
+        if sub["k"] != "BinaryOperator" or sub["op"] != "*" or _type_width(sub.get("ct") or sub.get("t")) != 32:
+            continue
+        if all(isinstance(strip(c).get("val"), int) for c in sub["c"]):
+            continue
+        n += 1
+        report(sub, False, {"expression": expr_str(sub)[:60], "computed_in": sub.get("ct") or sub.get("t"), "widened_to": node.get("ct") or node.get("t")})
+    return n
